@@ -295,6 +295,7 @@ func genC01(c *ctx) {
 	p := c.baseProfile()
 	p.Odd = c.chance(0.6)
 	p.HalfTyped = []float64{0, 0.03, 0.1}[c.n(3)]
+	p.Builtins = c.chance(0.4)
 	c.makeWorld(p)
 	stride := 3
 	if c.thorough() {
